@@ -16,6 +16,7 @@ import Falcon.Model.SignFlt
 import Falcon.Model.Keygen
 import Falcon.Model.KeygenWindow
 import Falcon.Spec.RefFormat
+import Falcon.Spec.RefSig
 import Falcon.Spec.Codec
 /- dispatch of one line-protocol op to the model -/
 namespace Falcon.Driver
@@ -140,6 +141,11 @@ def execOp (chk : Bool) (tok : List String) : String :=
   | ["pk_from_bytes", n, hx] => renderDec (pkReencode (parseNat n) (parseHex hx))
   | ["sk_from_bytes", n, hx] => renderDec (skReencode chk (parseNat n) (parseHex hx))
   | ["sig_from_bytes", n, hx] => renderDec (sigReencode (parseNat n) (parseHex hx))
+  | ["ref_comp_decode", logn, hx] =>
+      -- the transcription of the reference's `comp_decode` (compared with the C function itself)
+      match RefSig.compDecode (parseNat logn) (parseHex hx) with
+      | none => "None"
+      | some (x, v) => s!"Some {renderInts x} {v}"
   | ["dec_seq", ty, hx] =>
       -- the same string under 512, 1024, 512 (the model has no memory: three independent calls)
       let one (n : Nat) : String :=
